@@ -3,5 +3,6 @@ CONSTANTS
   Bug = "none"
   MaxLen = 2
   DumpCases = FALSE
+  Uni = "full"
 INVARIANTS Refines WellFormed ElemsDenoteSame ElemsSubset RebuildSame
 CHECK_DEADLOCK FALSE
